@@ -22,12 +22,12 @@ def en(name, variants=("Active", "Done"), derives=SERDE):
             "variants": [{"name": v, "serde": []} for v in variants]}
 
 
-def emit(name, pl, recv="app"):
+def emit(name, pl, recv="app", to=None):
     """pl: ["var", n] | ["unit"] | ["str"] | ["int"] | ["bool"] | ["struct", N]"""
     k = pl[0]
     expr = {"var": lambda: pl[1], "unit": lambda: "()", "str": lambda: '"s"', "int": lambda: "1", "bool": lambda: "true",
             "struct": lambda: "%s { ..Default::default() }" % pl[1]}[k]()
-    return {"emit": name, "recv": recv, "payload": expr, "pl": list(pl)}
+    return {"emit": name, "recv": recv, "payload": expr, "pl": list(pl), "to": to}
 
 
 def fn(name, params, ret=None, body=(), command=True, attr=("tauri", "command"), is_async=False):
@@ -253,3 +253,81 @@ def random_case(rng, wild=False):
             case["files"][f0].append(fn("helper_emit_%d" % k, [APP, ("pl", P(n))], None, [emit("helper-%d" % k, ["var", "pl"])], command=False))
             case["files"][f0].append(fn("use_%s_%d" % (n.lower(), k), [("x", P(n))], None))
     return case, meta
+
+
+# ----------------------------------------------------------------------------- cross-file projects
+
+ROOT_KINDS = ["param", "return", "channel", "event_helper", "event_command", "event_literal", "event_emit_to"]
+
+
+def root_fn(kind, fname, t, tname, evname):
+    """The function that mentions root type `t` (custom name `tname`) through one root kind."""
+    if kind == "param":
+        return fn(fname, [("arg", t)], None)
+    if kind == "return":
+        return fn(fname, [], t)
+    if kind == "channel":
+        return fn(fname, [("on_msg", P("Channel", t))], None)
+    if kind == "event_helper":        # payload type mentioned by no command
+        return fn(fname, [APP, ("pl", t)], None, [emit(evname, ["var", "pl"])], command=False)
+    if kind == "event_command":
+        return fn(fname, [APP, ("pl", t)], None, [emit(evname, ["var", "pl"])])
+    if kind == "event_literal":       # payload built in place: only the emit mentions the type
+        return fn(fname, [APP], None, [emit(evname, ["struct", tname])], command=False)
+    if kind == "event_emit_to":
+        return fn(fname, [APP, ("pl", Ref(t))], None, [emit(evname, ["var", "pl"], to='"main"')], command=False)
+    raise ValueError(kind)
+
+
+def crossfile_matrix():
+    """Every root kind x struct|enum leaf x file layout; the root type is never defined in the
+    file of the function that mentions it."""
+    out = []
+    for kind in ROOT_KINDS:
+        for leaf_enum in (False, True):
+            if leaf_enum and kind == "event_literal":
+                continue
+            for layout in ("two-files", "chain-three-files", "deep-dir"):
+                if leaf_enum and layout == "chain-three-files":
+                    continue
+                leaf = en("Payload") if leaf_enum else st("Payload", [("v", P("i32"))] + ([("dep", P("Detail"))] if layout == "chain-three-files" else []))
+                files = {"src/lib.rs": [fn("ping", [], None)],
+                         "src/api/handlers.rs": [root_fn(kind, "handle", P("Payload"), "Payload", "payload-ready")]}
+                files["src/models/deep/nested/payload.rs" if layout == "deep-dir" else "src/models/payload.rs"] = [leaf]
+                if layout == "chain-three-files":
+                    files["src/models/detail.rs"] = [st("Detail", [("n", P("String"))])]
+                out.append(("crossfile/%s/%s/%s" % (kind, "enum" if leaf_enum else "struct", layout), project(None, files=files)))
+    return out
+
+
+def crossfile_random(rng):
+    """Random multi-file project: one file per type, one file per function; every root type is
+    reached through a random root kind from a function in another file; dependencies between
+    types (other files again) through clean constructor contexts."""
+    n = rng.randint(2, 6)
+    names = rng.sample(pg.TYPE_NAMES, n)
+    is_enum = [rng.random() < 0.2 for _ in names]
+    files = {"src/lib.rs": [fn("ping", [], None)]}
+    has_in = set()
+    for i, nm in enumerate(names):
+        if is_enum[i]:
+            files["src/models/%s.rs" % nm.lower()] = [en(nm)]
+            continue
+        fields = [("id", P("i32"))]
+        for j in range(i + 1, n):
+            if rng.random() < 0.35:
+                fields.append(("f_%d" % j, CONTEXTS[rng.choice(["direct", "option", "vec", "map_value", "tuple_last", "set"])](P(names[j]))))
+                has_in.add(j)
+        files["src/models/%s%s.rs" % ("sub/" if rng.random() < 0.3 else "", nm.lower())] = [st(nm, fields)]
+    k = 0
+    for i, nm in enumerate(names):
+        if i in has_in and rng.random() < 0.6:
+            continue
+        kinds = [x for x in ROOT_KINDS if not (is_enum[i] and x == "event_literal")]
+        for kind in rng.sample(kinds, rng.choice([1, 1, 2])):
+            t = P(nm)
+            if kind in ("param", "return", "channel"):
+                t = CONTEXTS[rng.choice(["direct", "option", "vec"])](t)
+            files["src/cmds/c%d.rs" % k] = [root_fn(kind, "op_%d" % k, t, nm, "evt-%d" % k)]
+            k += 1
+    return project(None, files=files)
